@@ -112,8 +112,9 @@ func (s *RegScenario) Setup(k *sim.Kernel) {
 		panic(err)
 	}
 	for _, is := range s.Service.Ifaces {
+		// (distinct fresh names on a service that has never served)
 		if err := svc.RegisterInterface(&descIface{is.Name, is.Desc}); err != nil {
-			panic(err)
+			k.Violate("registration", "fresh-name-refused", sf("RegisterInterface(%q) on a new service was refused: %v", is.Name, err))
 		}
 	}
 	if s.Resolver != nil {
@@ -131,7 +132,7 @@ func (s *RegScenario) Setup(k *sim.Kernel) {
 		}
 		for _, is := range s.Other.Ifaces {
 			if err := o.RegisterInterface(&descIface{is.Name, is.Desc}); err != nil {
-				panic(err)
+				k.Violate("registration", "fresh-name-refused", sf("RegisterInterface(%q) on a second new service was refused: %v", is.Name, err))
 			}
 		}
 		other = o
@@ -908,6 +909,10 @@ func genC13(seed uint64, tier string) Scenario {
 	}
 	for i, n := 0, g.IntN(2); i < n; i++ {
 		life = append(life, RegOp{Op: "reg", Name: newName(), Desc: g.String(20)})
+	}
+	// line ends are part of the text
+	if nInit > 0 && g.Pct(10) {
+		s.Service.Ifaces[g.IntN(nInit)].Desc += "\r\n# dos\r\nline\n\rends\r"
 	}
 	// the empty text is a description too
 	if g.Pct(12) {
